@@ -126,6 +126,9 @@ BeadsProgram(isInt) ==
   <<Call("to_rfi", <<"scatter+fluorescence">>), Call("start_end", <<250, 100>>)>>
   \o (IF isInt THEN <<Call("high_low", <<"scatter">>)>> ELSE <<>>)
   \o <<Call("density2d", <<"scatter", "row-fraction", "logicle", "sigma5">>)>>
+(* ... and, for a row with MEF values, the calibration on that gated sample with the ROW'S OWN arguments *)
+BeadsCalibration ==
+  <<Call("get_transform_fxn", <<"own-mef-values", "own-mef-channels", "own-clustering-channels">>)>>
 
 (* ---- the statistics sheet: columns added per reported channel, in this order,   *)
 (* each <<column suffix, library statistic, computed on positive events only>>     *)
